@@ -43,6 +43,7 @@ type RunConfig struct {
 	Maintenance   bool    `json:"maintenance,omitempty"`
 	ChattyPair    bool    `json:"chatty_pair,omitempty"`
 	PStoreErr     float64 `json:"p_store_err,omitempty"`
+	Wire          bool    `json:"wire,omitempty"`
 	NilTx         bool    `json:"nil_tx"`
 	PAsync        float64 `json:"p_async"`
 	PReFF         float64 `json:"p_reff"`
